@@ -18,7 +18,7 @@ def Outs : G → GVal → Prop
   | .rep w, v => v = w
   | .cycBool _, v => ∃ c, v = .bool c
   | .ints lo hi _ _, v => ∃ a, v = .int a ∧ (∀ l, lo = some l → l ≤ a) ∧ (∀ u, hi = some u → a ≤ u)
-  | .floats lo hi _, v => ∃ a, v = .flt a ∧ (lo ≤ hi → lo ≤ a ∧ a ≤ hi)
+  | .floats lo hi _, v => ∃ a : XF, v = a.val ∧ (XF.le lo hi = true → XF.le lo a = true ∧ XF.le a hi = true)
   | .strings, v => ∃ cs, v = .str cs
   | .uuids, v => ∃ n, v = .uuid n
   | .nowOnce, v => ∃ a, v = .dt a
@@ -113,13 +113,25 @@ theorem pull_sound : ∀ fuel, StepSound (pull fuel) := by
       split at h
       · simp only [Res.yield.injEq] at h
         obtain ⟨rfl, rfl, rfl⟩ := h
-        exact ⟨⟨lo, rfl, fun hle => ⟨Int.le_refl _, hle⟩⟩, fun w hw => by simpa [Outs] using hw⟩
+        exact ⟨⟨lo, rfl, fun hle => ⟨XF.le_refl _, hle⟩⟩, fun w hw => by simpa [Outs] using hw⟩
       · simp only [Res.yield.injEq] at h
         obtain ⟨rfl, rfl, rfl⟩ := h
-        exact ⟨⟨hi, rfl, fun hle => ⟨hle, Int.le_refl _⟩⟩, fun w hw => by simpa [Outs] using hw⟩
-      · simp only [Res.yield.injEq] at h
-        obtain ⟨rfl, rfl, rfl⟩ := h
-        exact ⟨⟨_, rfl, fun hle => ⟨uniform_ge t hle, uniform_le t hle⟩⟩, fun w hw => by simpa [Outs] using hw⟩
+        exact ⟨⟨hi, rfl, fun hle => ⟨hle, XF.le_refl _⟩⟩, fun w hw => by simpa [Outs] using hw⟩
+      · split at h
+        · rename_i hlt
+          split at h
+          · rename_i a b
+            simp only [Res.yield.injEq] at h
+            obtain ⟨rfl, rfl, rfl⟩ := h
+            have hab : a ≤ b := by
+              have := XF.le_of_lt hlt
+              simpa [XF.le] using this
+            exact ⟨⟨.fin _, rfl, fun _ => ⟨by simpa [XF.le] using uniform_ge t hab, by simpa [XF.le] using uniform_le t hab⟩⟩,
+              fun w hw => by simpa [Outs] using hw⟩
+          · cases h
+        · simp only [Res.yield.injEq] at h
+          obtain ⟨rfl, rfl, rfl⟩ := h
+          exact ⟨⟨lo, rfl, fun hle => ⟨XF.le_refl _, hle⟩⟩, fun w hw => by simpa [Outs] using hw⟩
     | strings =>
       simp only [pull, Res.yield.injEq] at h
       obtain ⟨rfl, rfl, rfl⟩ := h
